@@ -200,6 +200,7 @@ func opts() proggen.Opts {
 	return proggen.Opts{
 		MaxDepth:       6,
 		MarkOdds:       5,
+		CaseVary:       true,
 		NoValuesInInit: h.ExclOn("values-object-bound"), // finding C01-F1 (let binds the values object; pinned by the suite)
 	}
 }
